@@ -66,6 +66,56 @@ func newDerivedObject(depth int, everyLevel bool, init ...any) at.Object {
 	return d3
 }
 
+// rawDerivedList builds the nest of embedding levels WITHOUT registering anything; register does what
+// the constructors above do (every level innermost first, or only the outermost value).
+func rawDerivedList(depth int, init ...any) (at.List, func(everyLevel bool)) {
+	d1 := &DL1{List: at.NewList(init...)}
+	d2 := &DL2{DL1: d1}
+	d3 := &DL3{DL2: d2}
+	switch depth {
+	case 1:
+		return d1, func(bool) { d1.Init(d1) }
+	case 2:
+		return d2, func(e bool) {
+			if e {
+				d1.Init(d1)
+			}
+			d2.Init(d2)
+		}
+	}
+	return d3, func(e bool) {
+		if e {
+			d1.Init(d1)
+			d2.Init(d2)
+		}
+		d3.Init(d3)
+	}
+}
+
+func rawDerivedObject(depth int, init ...any) (at.Object, func(everyLevel bool)) {
+	d1 := &DO1{Object: at.NewObject(init...)}
+	d2 := &DO2{DO1: d1}
+	d3 := &DO3{DO2: d2}
+	switch depth {
+	case 1:
+		return d1, func(bool) { d1.Init(d1) }
+	case 2:
+		return d2, func(e bool) {
+			if e {
+				d1.Init(d1)
+			}
+			d2.Init(d2)
+		}
+	}
+	return d3, func(e bool) {
+		if e {
+			d1.Init(d1)
+			d2.Init(d2)
+		}
+		d3.Init(d3)
+	}
+}
+
 type FluentCall struct {
 	Name string  `json:"name"`
 	A    int     `json:"a,omitempty"`
@@ -80,6 +130,8 @@ type C19Case struct {
 	Store    int          `json:"store"` // which storing entry point is used for the storage half
 	// InitEveryLevel: each embedding level calls Init in its constructor (README pattern), not only the outermost
 	InitEveryLevel bool `json:"initeverylevel"`
+	// Size: number of elements / fields the derived value starts with (0 = the default of 3 / 2)
+	Size int `json:"size,omitempty"`
 }
 
 // derivingMethods return a new container or an element, not the receiver.
@@ -117,6 +169,9 @@ const c19StoreWays = 17
 
 func GenC19(t *rapid.T) *C19Case {
 	c := &C19Case{Depth: drawInt(t, 1, 3, "depth"), IsObject: drawBool(t, "isobject"), Store: drawIdx(t, c19StoreWays, "store"), InitEveryLevel: drawBool(t, "initeach")}
+	if oneIn(t, 6, "big") {
+		c.Size = []int{64, 65, 100, 200, 1025}[drawIdx(t, 5, "size")] // beyond any batch / worker limit of the async variants
+	}
 	names := listFluent
 	if c.IsObject {
 		names = objectFluent
@@ -314,7 +369,7 @@ func callObjectFluent(o at.Object, fc FluentCall) (ret at.Object, shape string, 
 
 // storageCheck stores the derived value d in host containers through entry
 // point `way` and reads it back through every retrieval path.
-func storageCheck(d any, way int, st *Stats) error {
+func storageCheck(d any, way int, st *Stats, afterStore func()) error {
 	var hostL at.List
 	var hostO at.Object
 	dl, isList := d.(at.List)
@@ -371,6 +426,9 @@ func storageCheck(d any, way int, st *Stats) error {
 		hostO = at.NewObject().SetTF(".a#1", d)
 		hostL, idx = hostO.GetList("a"), 1
 		hostO = nil
+	}
+	if afterStore != nil {
+		afterStore()
 	}
 	same := func(what string, got any) error {
 		if got != d {
@@ -634,10 +692,18 @@ func CheckC19(c *C19Case, st *Stats) error {
 		depth = 1
 	}
 	var d any
+	listInit, objInit := []any{3, 1, 2}, []any{"a", 1, "b", "two"}
+	for i := 3; i < c.Size; i++ {
+		listInit = append(listInit, i*7%101)
+		objInit = append(objInit, fmt.Sprintf("f%d", i), i)
+	}
+	if c.Size > 0 {
+		st.Count("big_derived_value")
+	}
 	if c.IsObject {
-		d = newDerivedObject(depth, c.InitEveryLevel, "a", 1, "b", "two")
+		d = newDerivedObject(depth, c.InitEveryLevel, objInit...)
 	} else {
-		d = newDerivedList(depth, c.InitEveryLevel, 3, 1, 2)
+		d = newDerivedList(depth, c.InitEveryLevel, listInit...)
 	}
 	if c.InitEveryLevel {
 		st.Count("init.every_level")
@@ -690,8 +756,23 @@ func CheckC19(c *C19Case, st *Stats) error {
 		}
 	}
 	st.MarkNonTrivial()
-	if err := storageCheck(d, c.Store, st); err != nil {
+	if err := storageCheck(d, c.Store, st, nil); err != nil {
 		return errf("depth %d: %v", depth, err)
+	}
+	// the same with a value that is stored FIRST and registers itself afterwards: what is stored is the
+	// value the caller handed over, so every retrieval path yields the outer value once it is registered
+	{
+		var late any
+		var register func(bool)
+		if c.IsObject {
+			late, register = rawDerivedObject(depth, "a", 1, "b", "two")
+		} else {
+			late, register = rawDerivedList(depth, 3, 1, 2)
+		}
+		st.Count("stored_before_init")
+		if err := storageCheck(late, c.Store+len(c.Calls), st, func() { register(c.InitEveryLevel) }); err != nil {
+			return errf("depth %d, value stored before it registered itself with Init: %v", depth, err)
+		}
 	}
 	// storing an INNER embedding level of the registered value (e.g. dog.Animal) must not disturb the
 	// registration: Ego and fluent calls still yield the outer value
@@ -733,6 +814,6 @@ func CheckC19(c *C19Case, st *Stats) error {
 
 func init() {
 	Register("C19",
-		"user types embedding List / Object one, two and three levels deep, registered with Init either at every constructor level (the README pattern) or only by the outermost value. The fluent set is computed from the interface types by reflection (methods whose single result is the interface, minus the deriving operations; methods unknown to the harness are reported as unclassified): 19 on List, 14 on Object. Programs of 1-20 fluent calls with arguments valid for the current content cover every branch (Add with 0/1/2 values, Insert inside/at the end, Delete with 0/1/2 indices, Sort on ints/strings/floats, SetTF leaf replace/append/padding/./#/deep, UnsetTF leaf/nested, Set 0/1/2 pairs, Unset present/missing/none, all ForEach variants incl. ForEachAsync); every call must return the identical registered outer value and Ego() too. Then the derived value is stored through one of 14 entry points (constructors incl. typed slices/maps, Add, Insert, Replace, Set, tree-form writes) and read back through Get, GetList/GetObject, GetTF, Slice, Dict, Values, Pluck, SubList, Concat, Filter*, typed slices, every ForEach/Map callback, IndexOf/Contains/KeyOf: always the identical outer value. Every case is non-trivial (a derived value is exercised); distinct = distinct FNV-64a hash of the case JSON.",
+		"user types embedding List / Object one, two and three levels deep, registered with Init either at every constructor level (the README pattern) or only by the outermost value. The fluent set is computed from the interface types by reflection (methods whose single result is the interface, minus the deriving operations; methods unknown to the harness are reported as unclassified): 19 on List, 14 on Object. Programs of 1-20 fluent calls with arguments valid for the current content cover every branch (Add with 0/1/2 values, Insert inside/at the end, Delete with 0/1/2 indices, Sort on ints/strings/floats, SetTF leaf replace/append/padding/./#/deep, UnsetTF leaf/nested, Set 0/1/2 pairs, Unset present/missing/none, all ForEach variants incl. ForEachAsync); every call must return the identical registered outer value and Ego() too. One case in six starts with 64-1025 elements / fields (beyond any batch or worker limit of the async variants). Then the derived value is stored through one of 17 entry points (once already registered, once registering itself only after it was stored) (constructors incl. typed slices/maps, Add, Insert, Replace, Set, tree-form writes) and read back through Get, GetList/GetObject, GetTF, Slice, Dict, Values, Pluck, SubList, Concat, Filter*, typed slices, every ForEach/Map callback, IndexOf/Contains/KeyOf: always the identical outer value. Every case is non-trivial (a derived value is exercised); distinct = distinct FNV-64a hash of the case JSON.",
 		GenC19, CheckC19)
 }
